@@ -4,6 +4,7 @@ import json
 import struct
 import zlib
 
+import sys
 import common, enc, impl
 import segno
 
@@ -317,5 +318,4 @@ def run(ctx):
 
 
 def replay(rec):
-    print(json.dumps(rec['input'])[:400])
-    return 1
+    return common.replay_by_rerun(sys.modules[__name__], rec)
